@@ -55,7 +55,7 @@ distinct = max(int(p.get("distinct_nontrivial", 0)) for p in parts)
 samples = []
 for p in parts:
     for s in p.get("samples", []):
-        if len(samples) < 4:
+        if len(samples) < 4 and s not in samples:
             samples.append(s)
 if not samples:
     samples = [{"note": "no run of <= 12 ops completed in this batch"}]
